@@ -291,6 +291,52 @@ fn run_inner(sc: &J) -> Result<Option<String>, String> {
                 Err(_) => Ok(None),
             }
         }
+        // C13 (and C01/C02/C16 through it): the property's own quantifier as a sweep — corpus of (schema, value) x datum write
+        // path (generic write_value_ref, serde write_ser with target_block_size None / Some(0) / Some(32)) x accepted length
+        // per call (1, 2, 3, 7, all) x an injected error or an ErrorKind::Interrupted at EACH sink call index.
+        // Ok(n) must mean: the sink holds exactly the bytes an in-memory buffer gets, and n is their number.
+        "faulty_sink_matrix" => {
+            use std::collections::BTreeMap;
+            #[derive(serde::Serialize)] struct R { tag: String, count: i64, items: Vec<i32> }
+            // serde field order differs from the schema order [zz, yy, xx, ww]: yy and xx arrive before zz and are cached
+            #[derive(serde::Serialize)] struct Q { yy: String, xx: String, zz: i64, ww: i64 }
+            #[derive(serde::Serialize)] struct Q2 { ww: i64, xx: String, yy: String, zz: i64 }
+            let only: Option<usize> = sc["only"].as_u64().map(|x| x as usize);
+            let mut ci = 0usize;
+            // every item carries the Value it must be written as — built by hand here, so the expectation does not come from the
+            // library's serde path
+            let rec = |fs: Vec<(&str, Value)>| Value::Record(fs.into_iter().map(|(k, v)| (k.to_string(), v)).collect());
+            let strs = |v: &[&str]| Value::Array(v.iter().map(|x| Value::String(x.to_string())).collect());
+            macro_rules! item { ($st:expr, $v:expr, $e:expr) => {{
+                if only.is_none() || only == Some(ci) { if let Some(m) = matrix_item($st, &$v, $e)? { return Ok(Some(m)); } }
+                ci += 1;
+            }}; }
+            item!("\"long\"", 300i64, Value::Long(300));
+            item!("\"long\"", -70000i64, Value::Long(-70000));
+            item!("\"long\"", i64::MAX, Value::Long(i64::MAX));
+            item!("\"int\"", i32::MIN, Value::Int(i32::MIN));
+            item!("\"string\"", "s".repeat(200), Value::String("s".repeat(200)));
+            item!("\"double\"", 1.5f64, Value::Double(1.5));
+            item!("{\"type\":\"array\",\"items\":\"string\"}", vec!["alpha", "beta", "gamma", "delta", "epsilon", "zeta", "eta", "theta", "iota", "kappa", "lambda", "mu", "nu", "xi", "omicron", "pi", "rho", "sigma", "tau", "upsilon"], strs(&["alpha", "beta", "gamma", "delta", "epsilon", "zeta", "eta", "theta", "iota", "kappa", "lambda", "mu", "nu", "xi", "omicron", "pi", "rho", "sigma", "tau", "upsilon"]));
+            item!("{\"type\":\"array\",\"items\":\"long\"}", vec![1i64, -70000, 2147483647, 300, 64, -65], Value::Array([1i64, -70000, 2147483647, 300, 64, -65].iter().map(|x| Value::Long(*x)).collect()));
+            item!("{\"type\":\"array\",\"items\":\"null\"}", vec![(), (), ()], Value::Array(vec![Value::Null, Value::Null, Value::Null]));
+            item!("{\"type\":\"map\",\"values\":\"long\"}", [("a", 1i64), ("bb", 300), ("ccc", -70000), ("dddd", 5), ("eeeee", 6), ("ffffff", 7), ("g", 8), ("hh", 9)].into_iter().map(|(k, v)| (k.to_string(), v)).collect::<BTreeMap<String, i64>>(),
+                Value::Map([("a", 1i64), ("bb", 300), ("ccc", -70000), ("dddd", 5), ("eeeee", 6), ("ffffff", 7), ("g", 8), ("hh", 9)].into_iter().map(|(k, v)| (k.to_string(), Value::Long(v))).collect()));
+            item!("{\"type\":\"map\",\"values\":\"string\"}", (0..12).map(|i| (format!("key{i:02}"), format!("value-{i}"))).collect::<BTreeMap<String, String>>(),
+                Value::Map((0..12).map(|i| (format!("key{i:02}"), Value::String(format!("value-{i}")))).collect()));
+            item!("{\"type\":\"record\",\"name\":\"r\",\"fields\":[{\"name\":\"tag\",\"type\":\"string\"},{\"name\":\"count\",\"type\":\"long\"},{\"name\":\"items\",\"type\":{\"type\":\"array\",\"items\":\"int\"}}]}",
+                R { tag: "abcdef".into(), count: 300, items: vec![1, -70000, i32::MAX] },
+                rec(vec![("tag", Value::String("abcdef".into())), ("count", Value::Long(300)), ("items", Value::Array(vec![Value::Int(1), Value::Int(-70000), Value::Int(i32::MAX)]))]));
+            item!("{\"type\":\"record\",\"name\":\"q\",\"fields\":[{\"name\":\"zz\",\"type\":\"long\",\"default\":7},{\"name\":\"yy\",\"type\":\"string\",\"default\":\"d\"},{\"name\":\"xx\",\"type\":\"string\",\"default\":\"e\"},{\"name\":\"ww\",\"type\":\"long\",\"default\":9}]}",
+                Q { yy: "there".into(), xx: "hi".into(), zz: 300, ww: 42 },
+                rec(vec![("zz", Value::Long(300)), ("yy", Value::String("there".into())), ("xx", Value::String("hi".into())), ("ww", Value::Long(42))]));
+            item!("{\"type\":\"record\",\"name\":\"q\",\"fields\":[{\"name\":\"zz\",\"type\":\"long\",\"default\":7},{\"name\":\"yy\",\"type\":\"string\",\"default\":\"d\"},{\"name\":\"xx\",\"type\":\"string\",\"default\":\"e\"},{\"name\":\"ww\",\"type\":\"long\",\"default\":9}]}",
+                Q2 { ww: 42, xx: "hi".into(), yy: "there".into(), zz: 300 },
+                rec(vec![("zz", Value::Long(300)), ("yy", Value::String("there".into())), ("xx", Value::String("hi".into())), ("ww", Value::Long(42))]));
+            item!("[\"null\",\"double\"]", Some(2.25f64), Value::Union(1, Box::new(Value::Double(2.25))));
+            let _ = ci;
+            Ok(None)
+        }
         // C06/C05/C14: systematic truncation sweep over a built-in corpus of (schema, value) pairs — every proper prefix of a
         // canonical encoding must be rejected or decode to a value whose re-encoding is exactly the consumed bytes;
         // payload lengths straddle 2^7, 2^14, 2^16 (+1) so size-dependent code paths are exercised.
@@ -504,12 +550,19 @@ fn run_inner(sc: &J) -> Result<Option<String>, String> {
                 let mut w = apache_avro::Writer::builder().schema(&schema).writer(&mut file).marker([7u8; 16]).build().map_err(|e| e.to_string())?;
                 w.flush().map_err(|e| e.to_string())?;
             }
-            file.extend_from_slice(&[0, 0]); file.extend_from_slice(&[7u8; 16]);           // empty block: count 0, size 0, marker
-            file.extend_from_slice(&[4, 4, 2, 4]); file.extend_from_slice(&[7u8; 16]);     // block: 2 values, 2 bytes: 1, 2
+            // `layout`: object count of each block (default [0, 2]); values are 1, 2, 3, ... (one byte each, < 64)
+            let layout: Vec<u64> = sc["layout"].as_array().map(|a| a.iter().filter_map(|x| x.as_u64()).collect()).unwrap_or(vec![0, 2]);
+            let mut next = 1u8;
+            let mut expect = Vec::new();
+            for k in layout {
+                file.push((k * 2) as u8); file.push((k * 2) as u8);                          // count k, byte size k
+                for _ in 0..k { file.push(next * 2); expect.push(Value::Long(next as i64)); next += 1; }
+                file.extend_from_slice(&[7u8; 16]);
+            }
             match apache_avro::Reader::new(&file[..]) {
                 Ok(rd) => match rd.collect::<Result<Vec<Value>, _>>() {
-                    Ok(v) if v == vec![Value::Long(1), Value::Long(2)] => Ok(None),
-                    other => Ok(Some(format!("file with an empty block before a block of [1, 2] reads as {other:?}"))),
+                    Ok(v) if v == expect => Ok(None),
+                    other => Ok(Some(format!("file with zero-count blocks: expected {expect:?}, read {other:?}"))),
                 },
                 Err(e) => Ok(Some(format!("cannot open: {e}"))),
             }
@@ -708,7 +761,62 @@ fn run_inner(sc: &J) -> Result<Option<String>, String> {
 #[allow(dead_code)]
 fn _u(_: &Value) {}
 
+
+/// one corpus item of `faulty_sink_matrix`
+fn matrix_item<T: serde::Serialize>(st: &str, jv: &T, ref_value: Value) -> Result<Option<String>, String> {
+    let schema = Schema::parse_str(st).map_err(|e| e.to_string())?;
+    // path 0 = generic (Value), 1.. = serde with a target block size
+    for (pi, tbs) in [(0usize, None), (1, None), (2, Some(0usize)), (3, Some(32usize))] {
+        let w = apache_avro::writer::datum::GenericDatumWriter::builder(&schema).maybe_target_block_size(tbs).build().map_err(|e| e.to_string())?;
+        let mut good = Vec::new();
+        let n_good = if pi == 0 { w.write_value_ref(&mut good, &ref_value) } else { w.write_ser(&mut good, jv) }.map_err(|e| format!("{st}: {e}"))?;
+        if n_good != good.len() { return Ok(Some(format!("{st} path {pi} tbs={tbs:?}: Ok({n_good}) for {} bytes in memory", good.len()))); }
+        let mut rd = &good[..];
+        match apache_avro::from_avro_datum(&schema, &mut rd, None) {
+            Ok(v) if v == ref_value && rd.is_empty() => {}
+            other => return Ok(Some(format!("{st} path {pi} tbs={tbs:?}: the in-memory bytes {:02x?} do not read back as the value written: {other:?} ({} bytes left)", &good[..good.len().min(48)], rd.len()))),
+        }
+        for accept in [1usize, 2, 3, 7, usize::MAX] {
+            let run = |fail_at: Option<usize>, interrupt_at: Option<usize>| -> (Result<usize, String>, Vec<u8>, usize) {
+                let mut sink = MatrixSink { data: Vec::new(), accept, fail_at, interrupt_at, calls: 0 };
+                let r = if pi == 0 { w.write_value_ref(&mut sink, &ref_value) } else { w.write_ser(&mut sink, jv) };
+                (r.map_err(|e| e.to_string()), sink.data, sink.calls)
+            };
+            let (_, _, calls) = run(None, None);
+            let mut modes: Vec<(Option<usize>, Option<usize>)> = vec![(None, None)];
+            for i in 0..calls.min(400) { modes.push((Some(i), None)); modes.push((None, Some(i))); }
+            for (fa, ia) in modes {
+                let (r, data, _) = run(fa, ia);
+                if let Ok(n) = r {
+                    if data != good || n != good.len() {
+                        return Ok(Some(format!("schema {st} path {} tbs={tbs:?} accept={accept} fail_at={fa:?} interrupt_at={ia:?}: Ok({n}) but the sink holds {} bytes {:02x?}, an in-memory buffer {} bytes {:02x?}",
+                            if pi == 0 { "write_value_ref" } else { "write_ser" }, data.len(), &data[..data.len().min(24)], good.len(), &good[..good.len().min(24)])));
+                    }
+                }
+            }
+        }
+    }
+    Ok(None)
+}
+
 pub struct FaultySink { pub data: Vec<u8>, pub accept: usize, pub fail_at: Option<usize>, pub calls: usize }
+/// like FaultySink, but call `interrupt_at` fails with ErrorKind::Interrupted (std's write_all retries those)
+pub struct MatrixSink { pub data: Vec<u8>, pub accept: usize, pub fail_at: Option<usize>, pub interrupt_at: Option<usize>, pub calls: usize }
+impl std::io::Write for MatrixSink {
+    fn write(&mut self, buf: &[u8]) -> std::io::Result<usize> {
+        let c = self.calls; self.calls += 1;
+        if Some(c) == self.fail_at { return Err(std::io::Error::other("injected")); }
+        if Some(c) == self.interrupt_at { return Err(std::io::Error::new(std::io::ErrorKind::Interrupted, "injected interrupt")); }
+        let n = buf.len().min(self.accept.max(1));
+        self.data.extend_from_slice(&buf[..n]);
+        Ok(n)
+    }
+    fn flush(&mut self) -> std::io::Result<()> {
+        let c = self.calls; self.calls += 1;
+        if Some(c) == self.fail_at { return Err(std::io::Error::other("injected")); }
+        Ok(())
+    }
+}
 // (a sink that fails exactly at call `fail_at` and works again afterwards: retries on the same writer are part of C13's histories)
 impl std::io::Write for FaultySink {
     fn write(&mut self, buf: &[u8]) -> std::io::Result<usize> {
